@@ -81,6 +81,13 @@ CATALOGS = {
     'no-default': dict(integrations=['int1', 'int2'],
                        predictor_metadata=[{'name': 'pred', 'integration_name': 'mindsdb'},
                                            {'name': 'pred2', 'integration_name': 'proj'}]),
+    'default-int1': dict(integrations=['int1', 'int2'], default_namespace='int1',
+                         predictor_metadata=[{'name': 'pred', 'integration_name': 'mindsdb'},
+                                             {'name': 'pred2', 'integration_name': 'proj', 'to_predict': ['y']}]),
+    'default-int2-dicts': dict(integrations=[{'name': 'int1', 'type': 'data'}, {'name': 'int2', 'type': 'data'},
+                                             {'name': 'proj', 'type': 'project'}], default_namespace='int2',
+                               predictor_metadata=[{'name': 'pred', 'integration_name': 'mindsdb'},
+                                                   {'name': 'pred2', 'integration_name': 'proj', 'to_predict': 'y'}]),
     'api': dict(integrations=[{'name': 'int1', 'type': 'data', 'class_type': 'api'}, {'name': 'int2', 'type': 'data'}],
                 default_namespace='mindsdb',
                 predictor_metadata=[{'name': 'pred', 'integration_name': 'mindsdb'},
